@@ -266,6 +266,7 @@ func c13Hex(c *Ctx) {
 	}
 	// the hex escape function: callee of the 'u' and 'x' arms
 	var hexFn *ssa.Function
+	var inlineDigitCalls []*ssa.Call // the escape helper written out in the arms: the digit scanner is called directly
 	want := map[rune]int64{'u': 4, 'x': 2}
 	for r, digits := range want {
 		_, _, res := c.foldEscape(f, r)
@@ -291,6 +292,9 @@ func c13Hex(c *Ctx) {
 			continue
 		}
 		hexFn = calleeOf(call)
+		if isIntType(hexFn.Signature.Results().At(0).Type()) {
+			inlineDigitCalls = append(inlineDigitCalls, call)
+		}
 		n, ok := int64(0), false
 		for _, a := range call.Call.Args[1:] {
 			if v, isC := constIntArg(a); isC {
@@ -305,6 +309,9 @@ func c13Hex(c *Ctx) {
 				okRet = true
 			}
 		}
+		if isIntType(hexFn.Signature.Results().At(0).Type()) {
+			okRet = true // judged below: the value must be converted to text
+		}
 		c.R.Check(rule, fmt.Sprintf("returned:%q", r), c.P.InstrPos(call), okRet, "the decoded text must be returned unchanged")
 	}
 	if hexFn == nil {
@@ -312,24 +319,53 @@ func c13Hex(c *Ctx) {
 	}
 	// success edge returns an integer-to-string conversion of the scanned value
 	var digitCall *ssa.Call
-	instrs(hexFn, func(b *ssa.BasicBlock, i int, in ssa.Instruction) {
-		if call, ok := in.(*ssa.Call); ok {
-			if cal := calleeOf(call); cal != nil && c.inModule(cal) && !c.scannerDiagFns()[cal] && isIntType(cal.Signature.Results().At(0).Type()) {
-				digitCall = call
+	container := hexFn
+	if len(inlineDigitCalls) > 0 {
+		container, digitCall = f, inlineDigitCalls[0]
+	} else {
+		instrs(hexFn, func(b *ssa.BasicBlock, i int, in ssa.Instruction) {
+			if call, ok := in.(*ssa.Call); ok {
+				if cal := calleeOf(call); cal != nil && c.inModule(cal) && !c.scannerDiagFns()[cal] && isIntType(cal.Signature.Results().At(0).Type()) {
+					digitCall = call
+				}
 			}
-		}
-	})
+		})
+	}
 	if digitCall == nil {
 		c.R.Undecided(rule, "code-point-to-text", c.P.Pos(hexFn.Pos()), "no call producing the scanned value")
 		return
 	}
+	isDigitCall := func(v ssa.Value) bool {
+		if v == ssa.Value(digitCall) {
+			return true
+		}
+		for _, dc := range inlineDigitCalls {
+			if v == ssa.Value(dc) {
+				return true
+			}
+		}
+		return false
+	}
 	nret := 0
+	hexFn = container
 	instrs(hexFn, func(b *ssa.BasicBlock, i int, in ssa.Instruction) {
 		ret, ok := in.(*ssa.Return)
 		if !ok {
 			return
 		}
 		v := ret.Results[0]
+		if len(inlineDigitCalls) > 0 {
+			// only the returns of the hex arms: those that come after a digit scan
+			after := false
+			for _, dc := range inlineDigitCalls {
+				if instrDominates(dc, in) {
+					after = true
+				}
+			}
+			if !after {
+				return
+			}
+		}
 		if k, ok := v.(*ssa.Const); ok {
 			// failure edge: must raise the diagnostic
 			_ = k
@@ -343,7 +379,7 @@ func c13Hex(c *Ctx) {
 		if cv, ok := v.(*ssa.Convert); ok {
 			if bt, ok := cv.Type().Underlying().(*types.Basic); ok && bt.Info()&types.IsString != 0 && isIntType(cv.X.Type()) {
 				for _, rt := range plainOrigins.Roots(cv.X) {
-					if rt.Kind == "call" && rt.V == ssa.Value(digitCall) {
+					if rt.Kind == "call" && isDigitCall(rt.V) {
 						okConv = true
 					}
 				}
